@@ -106,6 +106,9 @@ pub struct ProtoWorld {
     /// compare the signer's ChannelSetup with the intended one after SetupChannel (harness
     /// precondition of C01/C02); C04's wire group turns it off and judges by signatures instead
     pub check_setup: bool,
+    /// SetupChannel.local_shutdown_wallet_index (the upfront script itself is taken from the
+    /// channel's intended setup)
+    pub shutdown_wallet_index: Option<u32>,
 }
 
 /// Where a request is sent.
@@ -210,6 +213,7 @@ impl ProtoWorld {
             requests: 0,
             channel_type_encoding: 0,
             check_setup: true,
+            shutdown_wallet_index: None,
         };
         w.assert_version_behaviour();
         w
@@ -306,7 +310,7 @@ impl ProtoWorld {
         let id0 = ChannelId::new_from_peer_id_and_oid(&pid.0, spec.dbid);
         let holder_seed = self.holder_seed(&id0);
         let (setup, cp) = self.make_setup(spec);
-        self.chans.push(Chan { id0, spec: spec.clone(), setup, cp, holder_pubkeys, holder_seed, is_ready: false });
+        self.chans.push(Chan { id0, spec: spec.clone(), setup, cp, holder_pubkeys, holder_seed, is_ready: false, perm_id: None });
         let ci = self.chans.len() - 1;
         self.handlers.push(self.root.for_new_client(ci as u64 + 1, PubKey(pid.0), spec.dbid));
         Out::Ok(ci)
@@ -323,8 +327,8 @@ impl ProtoWorld {
             funding_txid: s.funding_outpoint.txid,
             funding_txout: s.funding_outpoint.vout as u16,
             to_self_delay: s.holder_selected_contest_delay,
-            local_shutdown_script: Octets(vec![]),
-            local_shutdown_wallet_index: None,
+            local_shutdown_script: Octets(s.holder_shutdown_script.as_ref().map(|x| x.as_bytes().to_vec()).unwrap_or_default()),
+            local_shutdown_wallet_index: self.shutdown_wallet_index,
             remote_basepoints: Basepoints {
                 revocation: pk(&cpp.revocation_basepoint.0),
                 payment: pk(&cpp.payment_point),
@@ -446,7 +450,7 @@ fn psbt_with_witscripts(tx: &bitcoin::Transaction, ws: &[Vec<u8>]) -> PsbtWrappe
     PsbtWrapper { inner: psbt }
 }
 
-fn validate_msg(chan: &Chan, secp: &Secp256k1<All>, n: u64, content: &Content, signed: &CpSigned, phase1: bool) -> Message {
+pub fn validate_msg(chan: &Chan, secp: &Secp256k1<All>, n: u64, content: &Content, signed: &CpSigned, phase1: bool) -> Message {
     let flag = chan.htlc_sighash_type();
     let signature = bsig(&signed.commit_sig, EcdsaSighashType::All);
     let htlc_signatures = Array(signed.htlc_sigs.iter().map(|s| bsig(s, flag)).collect());
